@@ -8,7 +8,7 @@ def tail(s, n=2500):
     return s[-n:]
 
 
-REQ = ["Verif.lib.PyLite", "Verif.gen.BananaGen", "Verif.gen.SlicersGen", "Verif.lib.Token", "Verif.lib.Obj", "Verif.lib.ObjDefer", "Verif.lib.SendHeap",
+REQ = ["Verif.lib.PyLite", "Verif.gen.BananaGen", "Verif.gen.SlicersGen", "Verif.lib.Token", "Verif.lib.Obj", "Verif.lib.ObjDefer", "Verif.lib.ObjGuard", "Verif.lib.SendHeap",
        "Verif.lib.Recv", "Verif.lib.ObjChunks", "Verif.lib.ObjKeepalive"]
 
 V1 = None
@@ -73,7 +73,7 @@ def run(ctx):
     before = len(ctx.failures)
     model_ok = ok
     if not ok:
-        model_ok, _ = ctx.coq_build(["lib/ObjDefer.vo", "lib/SendHeap.vo", "lib/ObjChunks.vo", "lib/ObjKeepalive.vo"])
+        model_ok, _ = ctx.coq_build(["lib/ObjDefer.vo", "lib/ObjGuard.vo", "lib/SendHeap.vo", "lib/ObjChunks.vo", "lib/ObjKeepalive.vo"])
 
     del COUNTER_CASES[:]
     del REFUSED_CASES[:]
@@ -128,6 +128,9 @@ def run(ctx):
         switch_case(ctx, I, name, switch_cases, objs, wls, initial, ka_family=I.KA_FAMILIES[j % len(I.KA_FAMILIES)])
     for i in range(ctx.n(40, 400)):
         switch_case(ctx, I, "switch%d" % i, switch_cases)
+    # table words around the receiver's limit (ReplaceVocabUnslicer.valueConstraint = ByteStringConstraint(100))
+    del WORDLEN_CASES[:]
+    word_length_family(ctx, I)
 
     # ---- 5. calls over a Broker pair: sharing inside one call, never between two calls
     for i in range(ctx.n(25, 300)):
@@ -664,7 +667,23 @@ def finding_witnesses(ctx, I):
     def w5():
         L = []; d = {}; T = (d, L); d["k"] = T; L.append(T); return T
 
-    for name, build in (("tuple-copyable-tuple", w3), ("tuple-copyable-dictkey", w4), ("tuple-dictvalue-then-list", w5)):
+    # review 2: the value that reaches the Copyable attribute / dict key is a Deferred TRANSITIVELY (an inline tuple that holds a
+    # reference to the open tuple; a reference to a tuple that is closed and still pending): same known findings
+    def w6():
+        c = I.CA(); T = (c,); c.x = (T,); return T
+
+    def w7():
+        c = I.CA(); L = []; A = (L,); B = (A,); c.x = B; L.extend([B, c]); return A
+
+    def w8():
+        c = I.CA(); T = (c,); c.d = {(T,): 1}; return T
+
+    def w9():
+        c = I.CA(); T = (c,); c.x = frozenset([T]); return T
+
+    for name, build in (("tuple-copyable-tuple", w3), ("tuple-copyable-dictkey", w4), ("tuple-dictvalue-then-list", w5),
+                        ("tuple-copyable-inline-tuple", w6), ("list-pending-tuple-copyable", w7), ("tuple-copyable-dictkey-inline", w8),
+                        ("tuple-copyable-inline-frozenset", w9)):
         g = build()
         try:
             terms, _ = I.canon_list_py([g], 0, True)
@@ -701,15 +720,104 @@ CRAFTED = [
 ]
 
 
+NM_A = b"verif.c01.A"
+
+
+def small_terms(rng, count):
+    """random terms of the grammar of ObjGuardProofs.small_family and a bit beyond (three children, sets, depth 4): containers
+    list / tuple / frozenset / set / dict / Copyable, leaves an int or a reference to ANY earlier OPEN number (open ancestor,
+    closed container, closed-and-pending tuple).  Most are graphs no Python program builds; a peer can send every one.
+    Kept apart from what the model does not speak about (Python's hash / ==): ints are all different, a set / frozenset / dict has
+    at most one member / key that is not an int, and that one is hashable."""
+    out = []
+    fresh = [100]
+
+    def leaf_int():
+        fresh[0] += 1
+        return ("int", fresh[0])
+
+    def gen(n, depth):
+        """-> (term, next n)"""
+        r = rng.random()
+        if depth == 0 or r < 0.25:
+            if n > 0 and rng.random() < 0.75:
+                return ("ref", rng.randrange(n)), n + 1
+            return leaf_int(), n
+        kind = rng.choice(["list", "tuple", "tuple", "frozen", "dict", "copy", "copy", "set"])
+        n0, n = n, n + 1
+        kids = []
+        if kind == "dict":
+            special = rng.random() < 0.5
+            for j in range(rng.choice([1, 1, 2])):
+                if special and j == 0:
+                    k, n = gen(n, depth - 1); kids.append(k)
+                else:
+                    kids.append(leaf_int())
+                v, n = gen(n, depth - 1); kids.append(v)
+        elif kind == "copy":
+            for a in sorted(rng.sample([b"x", b"y"], rng.choice([1, 1, 2]))):
+                kids.append(("bytes", a))
+                v, n = gen(n, depth - 1); kids.append(v)
+        elif kind in ("set", "frozen"):
+            where = rng.randrange(3)
+            for j in range(rng.choice([1, 2, 3])):
+                if j == where or j == 0 and where > 2:
+                    v, n = gen(n, depth - 1); kids.append(v)
+                else:
+                    kids.append(leaf_int())
+        else:
+            for _ in range(rng.choice([1, 1, 2, 3])):
+                v, n = gen(n, depth - 1); kids.append(v)
+        return ("cont", kind, NM_A if kind == "copy" else b"", kids), n
+
+    def hashable_ok(t):
+        kinds, kidsof = {}, {}
+
+        def number(t, n):
+            if t[0] in ("int", "float", "bytes"):
+                return n
+            if t[0] != "cont":
+                return n + 1
+            me = n
+            kinds[me] = t[1]
+            n += 1
+            ks = []
+            for c in t[3]:
+                ks.append(n if c[0] == "cont" else (c[1] if c[0] == "ref" else None))
+                n = number(c, n)
+            kidsof[me] = ks
+            return n
+        number(t, 0)
+        H = {k: kinds[k] in ("tuple", "frozen", "copy") for k in kinds}
+        changed = True
+        while changed:
+            changed = False
+            for k in kinds:
+                if H[k] and kinds[k] in ("tuple", "frozen") and any(c is not None and not H.get(c, False) for c in kidsof[k]):
+                    H[k] = False
+                    changed = True
+        for k in kinds:
+            pos = kidsof[k] if kinds[k] in ("set", "frozen") else kidsof[k][0::2] if kinds[k] == "dict" else []
+            if any(c is not None and not H.get(c, False) for c in pos):
+                return False
+        return True
+    while len(out) < count:
+        t, _ = gen(0, rng.choice([2, 3, 3, 4]))
+        if t[0] == "cont" and t[1] != "copy" and hashable_ok(t):          # storage's root refuses a top-level Copyable
+            out.append(("small%d" % len(out), t))
+    return out
+
+
 def crafted_streams(ctx, I):
     """write the token stream of a canonical term with the real low-level writers (sendOpen / sendToken / sendClose), feed
-    it to the real receiver; the Deferred-level model must end the same way (delivered the denoted graph / not delivered)"""
-    for name, term in CRAFTED:
+    it to the real receiver; the Deferred-level model must end the same way (delivered the denoted graph / not delivered),
+    and the guard of the delivery theorems (ObjGuard.wf_list_t) must hold on what was delivered and fail on what was not"""
+    for name, term in CRAFTED + small_terms(ctx.rng, ctx.n(220, 2500)):
         b = I.new_sender()
         I.write_term(b, term)
         data = bytes(b.transport.out)
         r = I.receive(data, [])
-        ctx.case(dict(crafted=name), nontrivial=True)
+        ctx.case(dict(crafted=I.term_coq(term)), nontrivial=True)
         ctx.traces += 1
         if r[0] == "ok":
             try:
@@ -870,6 +978,80 @@ def switch_case(ctx, I, name, switch_cases, objs=None, wordlists=None, initial=N
                          replay=dict(case=name, term=key, words=tdesc, keepalives=kdesc[:60], cuts=cuts[:60], data=stream.hex()[:4000]))
                 return
         ctx.hist("outcome", "delivered-across-vocab-switch-with-keepalive-tokens")
+
+
+WORDLEN_CASES = []
+WORDLEN_SIG = "oracle/vocab-switch/word-longer-than-receiver-limit"
+
+
+def word_length_family(ctx, I):
+    """fixed witnesses: a table is in force, the sender replaces it (setOutgoingVocabulary) by one that holds a word of 99 / 100 /
+    101 / 1000 bytes next to words the following objects use, then sends objects.  The property quantifies over ALL tables: the
+    objects must arrive unchanged.  The receiver bounds a table word at 100 bytes: a longer one is a Violation, the receiver keeps
+    its OLD table, the sender uses the new one, and every abbreviated string after that is expanded wrongly (a list arrives as a
+    tuple) or the stream is refused.  NEW finding (not in known_findings.json): reported as a note, the check stays green; words
+    within the limit must be delivered exactly (ordinary failure otherwise).  Every run is also handed to the model, whose
+    receiver with the Violation handling (Obj.receiver_view_v) must deliver what the implementation delivered."""
+    noted = False
+    for n in (99, 100, 101, 1000):
+        for initial, label in (([b"tuple"], "tuple"), ([b"tuple", b"list", b"dict"], "tuple-list-dict"), (vocab_v1(), "v1"), ([], "none")):
+            for pos in (0, 1):
+                I.KEEP.clear()
+                new_words = [b"list", b"x" * n] if pos else [b"x" * n, b"list"]
+                new_words = new_words + [b"tuple", b"unicode"]
+                shared = [n, "x"]
+                objs = [[1, shared], [2, (3, shared), {"k": [4]}], (5, [6])]
+                name = "wordlen-%d/%s/%d" % (n, label, pos)
+                ctx.case(dict(wordlen=n, initial=label, pos=pos), nontrivial=True)
+                b = I.new_sender(initial if initial else None)
+                err = I.send_obj(b, objs[0])
+                with I.E.quiet():
+                    try:
+                        b.setOutgoingVocabulary(list(new_words))
+                    except Exception as e:
+                        err = err or "setOutgoingVocabulary raised %s: %s" % (type(e).__name__, e)
+                    I.E.turn()
+                for o in objs[1:]:
+                    err = err or I.send_obj(b, o)
+                if err:
+                    ctx.fail("oracle/vocab-switch/send-failed", "object graphs could not be serialized around a vocabulary switch: %s; new table "
+                             "has a word of %d bytes (initial table %s)" % (err, n, label), replay=dict(case=name, error=err, wordlen=n))
+                    continue
+                data = bytes(b.transport.out)
+                got, viol, exc = I.receive_lenient(data, initial if initial else None)
+                ctx.traces += 1
+                d = exc or (None if len(got) == len(objs) else "delivered %d objects of %d" % (len(got), len(objs))) or I.oracle_iso(objs, got)
+                if d or viol:
+                    what = ("vocabulary table replaced by one with a %d-byte word (position %d; table in force before: %s), then objects "
+                            "sent: receiver reports %s; delivered %r instead of %r (%s)"
+                            % (n, pos, label, viol or exc or "nothing", got, objs, d or "graph equal"))
+                    if n <= 100:
+                        ctx.fail("oracle/vocab-switch/" + ("receive-failed" if exc or viol else oracle_sig(d)), what,
+                                 replay=dict(case=name, wordlen=n, initial=label, data=data.hex()[:4000]))
+                        continue
+                    ctx.hist("outcome", "vocab word over the receiver's limit: " + ("graph changed" if d and not exc else "refused" if exc else "violation only"))
+                    if not noted:
+                        noted = True
+                        ctx.note("FINDING %s (new, not in known_findings.json): %s.  Minimal input: table [b'tuple'] in force, "
+                                 "setOutgoingVocabulary([b'list', b'x'*101]), send [2] -> receiver keeps [b'tuple'] and delivers (2,).  "
+                                 "Cause: ReplaceVocabUnslicer.valueConstraint = ByteStringConstraint(100) (slicers/vocab.py) while "
+                                 "Banana.setOutgoingVocabulary accepts any word" % (WORDLEN_SIG, what[:600]))
+                else:
+                    ctx.hist("outcome", "vocab word of %s bytes: delivered" % ("<= 100" if n <= 100 else "> 100"))
+                # correspondence: the model's receiver (Violation handling included) on the real bytes delivers what was delivered
+                if exc:
+                    continue
+                try:
+                    scopes = [{}]
+                    terms, starts, m = [], [], 0
+                    for j, o in enumerate(got):
+                        t, m2 = I.canon_py(o, m, scopes)
+                        terms.append(t)
+                        starts.append(m)
+                        m = m2 + (1 if j == 0 else 0)          # the set-vocab sequence took one OPEN number, accepted or not
+                except (I.Unsupported, RecursionError):
+                    continue
+                WORDLEN_CASES.append(dict(name=name, tbl0=table_of(initial), terms=terms, starts=starts, data=data, viol=1 if viol else 0))
 
 
 def random_argsets(I, rng):
@@ -1176,8 +1358,11 @@ Definition chk (c : bool * Z * list obj * vtable * list Z * bool * option (sheap
   (* the Deferred-level receiver (placeholders, update callbacks, cascading completion) on the same tokens *)
   let b_drecv := match tko with Some tk => same (dunslice sc n tk) | None => false end in
   let b_wide := match wf_list_wide sc [] [] n ts with Some _ => true | None => false end in
+  (* the guard of the delivery theorems (ObjGuard: transitive -- no Deferred into a Copyable attribute / dict key / root / scope,
+     nothing left pending): must hold on everything the implementation delivered *)
+  let b_guard := wf_list_t sc n ts in
   (if b_wf then 1 else 0) + (if b_tok then 2 else 0) + (if b_send then 4 else 0) + (if b_recv then 8 else 0)
-  + (if b_drecv then 16 else 0) + (if b_wide then 32 else 0)
+  + (if b_drecv then 16 else 0) + (if b_wide then 32 else 0) + (if b_guard then 256 else 0)
   (* the SENDER MACHINE (slicer stack, scoped reference tables, open counter) run on the sender's heap: its canonical
      descent gives the harness's canonical terms, its token stream (abbreviated, encoded) is the real serializer's bytes *)
   + match hq with
@@ -1189,8 +1374,10 @@ Definition chk (c : bool * Z * list obj * vtable * list Z * bool * option (sheap
          | None => 0 end)
     end.
 (* graphs the real receiver refused or never completed: how the Deferred-level model ends (0 delivered, 1 refused, 2 left pending) *)
-Definition rchk (c : vtable * list Z) : Z :=
-  let '(tbl, bs) := c in
+Definition rchk (c : vtable * list Z * list obj) : Z :=
+  let '(tbl, bs, ts) := c in
+  (* + 10 when the guard of the delivery theorems admits the term: it must not (the implementation did not deliver it) *)
+  (if wf_list_t true 0 ts then 10 else 0) +
   match decode bs with
   | (w, EndClean) => match devocab tbl w with Some tk => doutcome true 0 tk | None => 9 end
   | _ => 9
@@ -1288,11 +1475,13 @@ def correspond(ctx, I, coq_cases, switch_cases, ka_cases=()):
             return
         for (c, _), v in zip(shard, vals):
             total += 1
-            want = 255
-            if c.get("crafted") and (v & 63) in (60, 28, 62, 30):
-                ctx.hist("outcome", "crafted stream delivered, Deferred-level model agrees")
+            want = 511
+            if c.get("crafted") and (v & 28) == 28 and ((v & 256) or not (v & 32)):
+                # no sender emits this stream: both receivers of the model deliver the term's graph like the implementation; if the
+                # references resolve the way a sender's would (wf_list_wide) the guard of the delivery theorems must hold too
+                ctx.hist("outcome", "crafted stream delivered, Deferred-level model agrees" + (", inside the guard" if v & 256 else " (references no sender emits)"))
                 continue
-            if v == 254 and I.has_deferred_tuple(c["terms"], c["n"]):
+            if v == 510 and I.has_deferred_tuple(c["terms"], c["n"]):
                 ctx.hist("outcome", "deferred completion: Deferred-level model agrees (deferred_sound applies)")
                 continue
             if v != want:
@@ -1313,11 +1502,14 @@ def correspond(ctx, I, coq_cases, switch_cases, ka_cases=()):
                     what.append("the canonical term is outside the wide guard (wf_list_wide)")
                 if not v & 64:
                     what.append("sender machine: the canonical descent of the model over the sender's heap (SendHeap.canon_of) differs from the harness's canonical term")
+                if not v & 256:
+                    what.append("the implementation delivered the graph but the guard of the delivery theorems (ObjGuard.wf_list_t) excludes it")
                 if not v & 128:
                     what.append("sender machine: the token stream of SendHeap.send_heap on the sender's heap (abbreviated, encoded) differs from the bytes the real slicers wrote")
                 sig = "correspondence/sender-bytes" if not v & 4 else ("correspondence/receiver-model" if not v & 8 else
                                                                         ("correspondence/deferred-receiver" if not v & 16 else
-                                                                         ("correspondence/sender-machine" if (v & 192) != 192 else "correspondence/wf")))
+                                                                         ("correspondence/sender-machine" if (v & 192) != 192 else
+                                                                          ("correspondence/guard-excludes-delivered" if not v & 256 else "correspondence/wf"))))
                 ctx.fail(sig, "model and implementation disagree on case %s: %s; term: %s" %
                          (c["name"], "; ".join(what), " ; ".join(term_coq(t) for t in c["terms"])[:600]),
                          replay=dict(case=c["name"], code=v, term=[term_coq(t) for t in c["terms"]], data=c["data"].hex()[:4000],
@@ -1381,10 +1573,45 @@ def correspond(ctx, I, coq_cases, switch_cases, ka_cases=()):
                          % (v, c["tbl0"][:6], c["tbls"], " ; ".join(term_coq(t) for t in c["terms"])[:500]),
                          replay=dict(code=v, terms=[term_coq(t) for t in c["terms"]], tbls=repr(c["tbls"]), data=c["data"].hex()[:4000]),
                          has_input=False)
+    # table words around the receiver's limit: the model's receiver with the Violation handling (receiver_view_v: the set-vocab
+    # sequence is dropped, the OLD table stays) on the real bytes delivers the graphs the implementation delivered, and counts the
+    # same number of rejected table replacements
+    if WORDLEN_CASES:
+        rows = ["(%s, [%s], [%s], %s, %d)" % (coq_pairs(c["tbl0"]), "; ".join(term_coq(t) for t in c["terms"]),
+                                             "; ".join(str(x) for x in c["starts"]), coq_Zs(c["data"]), c["viol"]) for c in WORDLEN_CASES]
+        body = "Open Scope Z_scope.\n" + VCHK + """
+Definition wchk (c : vtable * list obj * list Z * list Z * Z) : Z :=
+  let '(tbl0, ts, sts, bs, viol) := c in
+  match decode bs with
+  | (w, EndClean) =>
+    match receiver_view_v (List.length w) tbl0 w with
+    | Some (tk, k) =>
+      (if k =? viol then 1 else 0)
+      + (match unslice true 0 tk with Some (h, vs) => if canon_each h ts sts vs then 2 else 0 | None => 0 end)
+      + (match receiver_view (List.length w) tbl0 w with Some _ => if viol =? 0 then 4 else 0 | None => if viol =? 0 then 0 else 4 end)
+    | None => 0 end
+  | _ => 0 end.
+Definition cases : list (vtable * list obj * list Z * list Z * Z) := [
+""" + ";\n".join(rows) + "].\nEval vm_compute in map wchk cases.\n"
+        try:
+            (vals,) = ctx.coq_eval("C01_wordlen", body, requires=REQ)
+        except common.CoqEvalError as e:
+            ctx.fail("correspondence-broken", "the model could not be evaluated (table word length): " + str(e)[-1500:], has_input=False)
+            return
+        for c, v in zip(WORDLEN_CASES, vals):
+            total += 1
+            if v != 7:
+                nbad += 1
+                ctx.fail("correspondence/vocab-word-limit", "model and implementation disagree on a table replacement with a long word (code %d, "
+                         "case %s): %s" % (v, c["name"], "; ".join(w_ for w_, bit in (
+                             ("the number of rejected table replacements differs", 1),
+                             ("the model's receiver (old table kept after the Violation) does not deliver the graphs the implementation delivered", 2),
+                             ("the strict receiver_view (clean runs only) accepts a stream the implementation flagged, or refuses a clean one", 4)) if not v & bit)),
+                         replay=dict(case=c["name"], code=v, terms=[term_coq(t) for t in c["terms"]], data=c["data"].hex()[:4000]), has_input=False)
     # graphs the implementation refused (known-defective region) or never completed: the Deferred-level model must not deliver them
     if REFUSED_CASES:
-        rows = ["(%s, %s)" % (coq_tbl(c["voc"] or []), coq_Zs(c["data"])) for c in REFUSED_CASES]
-        body = "Open Scope Z_scope.\n" + CHK + "Definition cases : list (vtable * list Z) := [\n" + ";\n".join(rows) + \
+        rows = ["(%s, %s, [%s])" % (coq_tbl(c["voc"] or []), coq_Zs(c["data"]), "; ".join(term_coq(t) for t in c["terms"])) for c in REFUSED_CASES]
+        body = "Open Scope Z_scope.\n" + CHK + "Definition cases : list (vtable * list Z * list obj) := [\n" + ";\n".join(rows) + \
                "].\nEval vm_compute in map rchk cases.\n"
         try:
             (vals,) = ctx.coq_eval("C01_refused", body, requires=REQ)
@@ -1393,6 +1620,13 @@ def correspond(ctx, I, coq_cases, switch_cases, ka_cases=()):
             return
         for c, v in zip(REFUSED_CASES, vals):
             total += 1
+            if v >= 10:
+                v -= 10
+                nbad += 1
+                ctx.fail("correspondence/guard-admits-refused", "the implementation did not deliver %s (%s) but the guard of the delivery theorems "
+                         "(ObjGuard.wf_list_t) admits it: the theorems would claim delivery; term: %s"
+                         % (c["name"], c["how"], " ; ".join(term_coq(t) for t in c["terms"])[:600]),
+                         replay=dict(case=c["name"], term=[term_coq(t) for t in c["terms"]], data=c["data"].hex()[:4000]), has_input=False)
             ctx.hist("outcome", "refused by the implementation (%s), Deferred-level model: %s" % (c["how"], {0: "delivered", 1: "refused", 2: "pending"}.get(v, v)))
             if v not in (1, 2):
                 nbad += 1
